@@ -30,6 +30,7 @@ fn main() {
         "C04" => props::core::c04(),
         "C05" => props::recovery::c05(),
         "C07" => props::drop::c07(),
+        "C12" => props::lifecycle_check::c12(),
         "C13" => props::synctest::c13(),
         "C14" => props::codec::c14(),
         "worker-c14" => props::codec::worker(&args[2..]),
